@@ -1,12 +1,20 @@
 /-
 Lemmas.Bounds — the numerical error bounds of the double-word operators (properties C03 / C04), on scaled
-integers and on the generated model.
+integers and on the generated model.  `u = 2^-53`; all finite doubles are integers in units of `2^-1074`.
 
  1. rounding-error helpers (`err_le_of_abs_le_pow`, `half_ulp_of_fix`, `fix_lower`);
  2. `dwplusfp_err`: DWPlusFP (Joldes–Muller–Popescu 2017, Alg. 4, Thm 2.2), relative error `≤ 2u² = 2^-105`,
     as a statement about integers;
- 3. the model-level theorems for `TwoFloat ± f64`, `f64 ± TwoFloat`;
- 4. `dwtimesfp_err`: DWTimesFP3 (Alg. 9), relative error `≤ 2u²`, and the model-level theorems.
+ 3. the model: `TwoFloat.add_tf_bound`, `add_ft_bound`, `sub_tf_bound`, `sub_ft_bound` (`TwoFloat ± f64`, `f64 ± TwoFloat`);
+ 4. `dwtimesfp_err`: DWTimesFP3 (Alg. 9), relative error `≤ 2u²`, on integers;
+ 5. the model: `TwoFloat.mul_tf_bound`, `mul_ft_bound`;
+ 6. `dwplusdw_err`: AccurateDWPlusDW (Alg. 6, Thm 3.1), relative error `≤ 3u² + 13u³`, on integers
+    (`dwplusdw_err_inexact`: the high sum rounds; `dwplusdw_err_exact`: it does not);
+ 7. the model: `TwoFloat.add_tt_bound`, `sub_tt_bound`;
+ 8. `dwtimesdw_err_7u2`: DWTimesDW3 (Alg. 12, crate's order), first-order analysis, `≤ 7u²` (partial);
+ 9. the model: `TwoFloat.mul_tt_values` (all intermediate values, validity), `mul_tt_bound_7u2_partial`;
+10. `dwtimesdw_err_5u2`: binade analysis of DWTimesDW3, `≤ 5u² + 12u³` (partial: the paper's constant is `5u²`);
+11. the model: `TwoFloat.mul_tt_bound_5u2_12u3_partial` on the property's range.
 -/
 import TFV.Lemmas.Inv
 import TFV.Lemmas.ArithExact
